@@ -2,6 +2,7 @@ package core
 
 import (
 	"bytes"
+	"math/bits"
 	"encoding/binary"
 	"encoding/json"
 	"fmt"
@@ -165,9 +166,19 @@ func runWorker(prop, tier, shardS, nshardsS, dir string) int {
 	ctx.finish()
 	// distinct hashes
 	df := filepath.Join(dir, fmt.Sprintf("distinct.%d", shard))
-	buf := make([]byte, 0, 8*len(ctx.distinct))
-	for h := range ctx.distinct {
-		buf = binary.LittleEndian.AppendUint64(buf, h)
+	var buf []byte
+	if ctx.bits != nil {
+		// bitmap mode: the file is the bitmap itself, marked by a name suffix
+		df += ".bits"
+		buf = make([]byte, 8*len(ctx.bits))
+		for i, w := range ctx.bits {
+			binary.LittleEndian.PutUint64(buf[8*i:], w)
+		}
+	} else {
+		buf = make([]byte, 0, 8*len(ctx.distinct))
+		for h := range ctx.distinct {
+			buf = binary.LittleEndian.AppendUint64(buf, h)
+		}
 	}
 	if err := os.WriteFile(df, buf, 0o644); err != nil {
 		fmt.Fprintln(os.Stderr, err)
@@ -386,6 +397,7 @@ func runDriver(prop, tier string) int {
 	merged := &ShardResult{Counters: map[string]int64{}, ByClass: map[string]int64{}, Known: map[string]int64{},
 		KnownExample: map[string]*Case{}, Edges: map[string]uint64{}, Extra: map[string]any{}, Lists: map[string][]string{}}
 	var distinctAll []uint64
+	var bitmap []uint64
 	var replayFiles []string
 	var crashes []string
 	nextReplay := 0
@@ -467,8 +479,18 @@ func runDriver(prop, tier string) int {
 		merged.ViolationCount += r.ViolationCount
 		merged.Violations = append(merged.Violations, r.Violations...)
 		if raw, err := os.ReadFile(r.DistinctFile); err == nil {
-			for i := 0; i+8 <= len(raw); i += 8 {
-				distinctAll = append(distinctAll, binary.LittleEndian.Uint64(raw[i:]))
+			if strings.HasSuffix(r.DistinctFile, ".bits") {
+				if bitmap == nil {
+					bitmap = make([]uint64, len(raw)/8)
+				}
+				for i := 0; i+8 <= len(raw) && i/8 < len(bitmap); i += 8 {
+					bitmap[i/8] |= binary.LittleEndian.Uint64(raw[i:])
+				}
+				os.Remove(r.DistinctFile)
+			} else {
+				for i := 0; i+8 <= len(raw); i += 8 {
+					distinctAll = append(distinctAll, binary.LittleEndian.Uint64(raw[i:]))
+				}
 			}
 		}
 	}
@@ -481,6 +503,14 @@ func runDriver(prop, tier string) int {
 		}
 	}
 	distinctAll = nil
+	distinctHow := "exact (set of 64-bit case hashes)"
+	if bitmap != nil {
+		for _, w := range bitmap {
+			nDistinct += bits.OnesCount64(w)
+		}
+		bitmap = nil
+		distinctHow = "conservative: population count of a 2^30-bit bitmap of case hashes OR-ed over the shards (collisions can only lower the count)"
+	}
 
 	// ---- race-detector logs
 	raceReports := 0
@@ -526,6 +556,7 @@ func runDriver(prop, tier string) int {
 		"evaluations":         merged.Evaluations,
 		"distinct_nontrivial": nDistinct,
 		"rule":                info.Rule,
+		"distinct_counting":   distinctHow,
 		"samples":             samples,
 		"counters":            merged.Counters,
 		"shards":              plan.Shards,
